@@ -1,6 +1,7 @@
 package main
 
 import (
+	"regexp"
 	"fmt"
 	"go/constant"
 	"go/types"
@@ -24,6 +25,7 @@ type Val struct {
 	Clo  *Closure // statically known closure / function value
 	Fn   *ssa.Function
 	BI   string // builtin name
+	Row  string // array values: the contents as an SMT (Array Int elemSort) term ("" = unconstrained contents)
 }
 
 type Closure struct {
@@ -224,8 +226,26 @@ func (w *World) declUF(name, decl string) {
 	w.ufOrder = append(w.ufOrder, name)
 }
 
+// canonType is the type's string with the predeclared aliases resolved (byte = uint8, rune = int32, any =
+// interface{}): identical types must name the same heap class and the same dynamic type tag.
+var aliasRe = regexp.MustCompile(`\b(byte|rune|any)\b`)
+
+func canonString(s string) string {
+	return aliasRe.ReplaceAllStringFunc(s, func(m string) string {
+		switch m {
+		case "byte":
+			return "uint8"
+		case "rune":
+			return "int32"
+		}
+		return "interface{}"
+	})
+}
+
+func canonType(t types.Type) string { return canonString(types.TypeString(t, nil)) }
+
 func (w *World) typeID(t types.Type) int {
-	k := types.TypeString(t, nil)
+	k := canonType(t)
 	if id, ok := w.typeIDs[k]; ok {
 		return id
 	}
